@@ -304,6 +304,40 @@ namespace xv
     XV_OP2(c_ge_fn, xs::ge(a, b))
     XV_OP3(c_select, xs::select(a, b, c))
 
+    // select with a compile-time mask: 136 masks per lane count (one-hot and all-but-one for every lane position
+    // modulo the lane count, alternating, halves, quarters, pairs, a pseudo-random pattern, all, none)
+    constexpr bool cmask(size_t K, size_t i, size_t n)
+    {
+        return K < 64 ? (i == K % n) : K < 128 ? (i != (K - 64) % n)
+            : K == 128                         ? (i % 2 == 0)
+            : K == 129                         ? (i < n / 2)
+            : K == 130                         ? (i >= n / 2)
+            : K == 131                         ? (i % 4 < 2)
+            : K == 132                         ? ((i / (n >= 8 ? n / 4 : 1)) % 2 == 0)
+            : K == 133                         ? ((i * 7 + 3) % 5 < 2)
+            : K == 134                         ? true
+                                               : false;
+    }
+    template <size_t K>
+    struct cgen
+    {
+        static constexpr bool get(size_t i, size_t n) { return cmask(K, i, n); }
+    };
+    template <class T, size_t K>
+    B<T> selc(B<T> const& a, B<T> const& b) { return xs::select(xs::make_batch_bool_constant<T, cgen<K>, arch>(), a, b); }
+    template <class T, size_t... K>
+    B<T> selc_at(B<T> const& a, B<T> const& b, size_t k, std::index_sequence<K...>)
+    {
+        typedef B<T> (*fn)(B<T> const&, B<T> const&);
+        static const fn t[] = { &selc<T, K>... };
+        return t[k % sizeof...(K)](a, b);
+    }
+    struct c_select_const
+    {
+        template <class T, class X>
+        static X f(X const& a, X const& b, long p) { return selc_at<T>(a, b, (size_t)p, std::make_index_sequence<136> {}); }
+    };
+
     template <class Op, class Q, class T>
     void reg_cmpq(const char* n) { reg<Op, T, QV<T, Q>, B<T>, B<T>>("C03", n); }
 
@@ -329,6 +363,7 @@ namespace xv
         reg<c_select, T, B<T>, PV<T, P_mask>, B<T>, B<T>>("C03", "select.frommask");
         reg<c_select, T, B<T>, PV<T, P_cmp>, B<T>, B<T>>("C03", "select.cmp");
         reg<c_select, T, B<T>, PV<T, P_cast>, B<T>, B<T>>("C03", "select.cast");
+        reg<c_select_const, T, B<T>, B<T>, B<T>>("C03", "select_const");
     }
 
     template <class... T>
